@@ -1,4 +1,7 @@
 use engine::Property;
+pub mod c19;
+pub mod c20;
+
 pub fn properties() -> Vec<Box<dyn Property>> {
-    vec![]
+    vec![Box::new(c19::C19), Box::new(c20::C20)]
 }
